@@ -99,3 +99,7 @@ impl Writer {
         Ok(())
     }
 }
+
+#[cfg(kani)]
+#[path = "/verif/harness/transport_writer.rs"]
+mod verif_harness;
